@@ -166,6 +166,13 @@ def _full_ab_plus(s):
     return True
 
 
+def _full_a_star(s):
+    for c in s:
+        if c != 'a':
+            return False
+    return True
+
+
 def _search_a_end(s):
     return s.endswith('a') or s.endswith('a\n')
 
@@ -208,9 +215,17 @@ REGEXES: Dict[str, Tuple[str, Callable[[str], bool], Callable[[str], bool]]] = {
     '\\.': ("'\\.'", _search_esc_dot, _f_lit('.')),
     'ab': ("ab", _s_lit('ab'), _f_lit('ab')),
     'b': ("b", _s_lit('b'), _f_lit('b')),
+    # alternation whose FIRST alternative matches a proper prefix of what the second matches: a full
+    # match must backtrack into the second alternative (fullmatch != match-then-compare-end)
+    'a|ab': ("'a|ab'", _s_lit('a'), lambda s: s == 'a' or s == 'ab'),
+    'a|a.': ("'a|a.'", _s_lit('a'), lambda s: s == 'a' or _full_a_dot(s)),
+    # lazy quantifier: the first match at position 0 is empty, a full match must extend it (-full only:
+    # it matches the empty string)
+    'a*?': ("'a*?'", _search_dotstar_full, _full_a_star),
 }
 REGEX_PATTERN = {'a': 'a', 'dot': '.', '^a': '^a', 'a$': 'a$', 'a|b': 'a|b', '[ab]+': '[ab]+', '.*': '.*',
-                 'a.': 'a.', '\\.': '\\.', 'ab': 'ab', 'b': 'b'}
+                 'a.': 'a.', '\\.': '\\.', 'ab': 'ab', 'b': 'b',
+                 'a|ab': 'a|ab', 'a|a.': 'a|a.', 'a*?': 'a*?'}
 
 # regexes for which `replace` has a hand-written meaning: every non-overlapping occurrence,
 # left to right, is replaced (the manual's "replaces every string matching REGEX")
